@@ -218,9 +218,9 @@ def run(tier, seed):
     exe = vc.build_driver("drv_alias", link_lib=True)
     budget = {"VERIF_CALL_BUDGET_MS": "5000" if quick else "20000"}
     runs = [("scripted", ["--mode", "scripted"])]
-    nrand = 4 if quick else 16
+    nrand = 6 if quick else 16
     for k in range(nrand):
-        runs.append(("random%d" % k, ["--mode", "random", "--n", 90 if quick else 400, "--stream", k]))
+        runs.append(("random%d" % k, ["--mode", "random", "--n", 100 if quick else 400, "--stream", k]))
     runs.append(("maps", ["--mode", "maps", "--k", 3 if quick else 4]))
     skipped = calls = 0
 
